@@ -135,8 +135,9 @@ PROPS["C07"] = dict(streams=[EVIDENCE], rule=PROV_RULE + "; evidence stream: REA
 # bytes, environment calls)
 PROPS["C18"]["streams"] = PROPS["C18"]["streams"] + [dict(name="slash@r3", quick=(3, 500), thorough=(12, 3000)),
                                                      dict(name="epoch@r3", quick=(3, 400), thorough=(12, 2500)),
-                                                     dict(name="rewards@r3", quick=(2, 300), thorough=(8, 2000))]
-PROPS["C18"]["fields"] = r"^accum\.|^(begin|end)\.rep"
+                                                     dict(name="rewards@r3", quick=(2, 300), thorough=(8, 2000)),
+                                                     dict(name="consumer@r3", quick=(3, 800), thorough=(12, 4000))]
+PROPS["C18"]["fields"] = r"^accum\.|^(begin|end)\.rep|^cons\.cend\.rep"
 
 # more consumers due at once than the per-block limit of the three time queues (launch, infraction
 # parameters, removal); one scripted history per seed (201..209 consumers), slow (about 3 minutes)
